@@ -8,6 +8,7 @@ mod sinks;
 mod tfb;
 mod bbi;
 mod refuse;
+mod reader;
 
 use serde_json::{json, Value};
 use std::io::{BufRead, BufReader, Write};
@@ -73,6 +74,7 @@ fn main() {
         "tfb_threads" => tfb::run_threaded_case,
         "bbi" => bbi::run_case,
         "refuse" => refuse::run_case,
+        "reader" => reader::run_case,
         other => {
             eprintln!("unknown subcommand {}", other);
             std::process::exit(2);
